@@ -229,7 +229,13 @@ Section Inv.
     induction fuel as [|f IH]; intros ev i w rs pend acc res w' rs' Hinv; cbn [bget]; [discriminate|].
     destruct pend as [|b rest].
     - intros H. inversion H; subst. split; [apply incl_refl|]. split; [auto|intros k v []].
-    - destruct (ev i) as [|L].
+    - destruct (ev i) as [|L|kl].
+      3:{ assert (Hinv' : inv (match store_get (k_get (w_keys w) kl) ts rs with
+                               | SLocked l => handle_lock ts (w, rs) (kl, l) | SVal _ => (w, rs) end)).
+          { destruct (store_get (k_get (w_keys w) kl) ts rs); [exact Hinv|apply handle_lock_inv; exact Hinv]. }
+          destruct (match store_get (k_get (w_keys w) kl) ts rs with
+                    | SLocked l => handle_lock ts (w, rs) (kl, l) | SVal _ => (w, rs) end) as [w1 rs1].
+          intros Hb. exact (IH _ _ _ _ _ _ _ _ _ Hinv' Hb). }
       + pose proof (serve_spec w rs b Hinv) as Hs. destruct (serve w rs ts b) as [vals locked]. destruct Hs as (S1 & S2 & S3).
         pose proof (fold_handle_inv locked (w, rs) Hinv) as Hinv'.
         destruct (fold_left (handle_lock ts) locked (w, rs)) as [w1 rs1].
